@@ -26,7 +26,8 @@ var primeDocs = [][]byte{
 func primedBuffer() *rjson.Buffer {
 	b := &rjson.Buffer{}
 	for _, d := range primeDocs {
-		rjson.Valid(d, b)
+		// a panic while priming is not reported here: the cases themselves will show it
+		_ = core.Catch(func() error { rjson.Valid(d, b); return nil })
 	}
 	return b
 }
